@@ -101,13 +101,17 @@ impl Scenario for Rpc {
             json!({"programs": [["declare", "purge", "delete"], ["declare", "purge", "delete"]], "hold": false}),
             json!({"programs": [["consume_srv_cancel", "purge"], ["declare", "consume_srv_cancel"]], "hold": false}),
         ];
+        v.push(json!({"programs": [["declare", "purge"], ["publish", "delete"]], "hold": false, "fine": true}));
         if tier == "thorough" {
             v.push(json!({"programs": [["declare", "declare_auto", "declare_passive"], ["purge", "delete", "purge"], ["get_empty", "consume_cancel"]], "hold": true}));
             v.push(json!({"programs": [["bind", "declare"], ["recover", "purge"], ["confirm", "delete"]], "hold": false}));
         }
         v
     }
-    fn bound(&self, tier: &str, _p: &Value) -> usize {
+    fn bound(&self, tier: &str, p: &Value) -> usize {
+        if p["fine"] == true {
+            return if tier == "thorough" { 3 } else { 2 };
+        }
         if tier == "thorough" {
             3
         } else {
@@ -133,7 +137,11 @@ impl Scenario for Rpc {
                 seq += seqs_used(op);
             }
         }
-        let cfg = EnvConfig::default();
+        let mut cfg = EnvConfig::default();
+        cfg.fine = p["fine"] == true;
+        if cfg.fine {
+            cfg.max_steps = 20000;
+        }
         Built {
             broker: Box::new(broker),
             cfg,
